@@ -5,6 +5,7 @@
 mod rng;
 mod wire;
 mod ev;
+mod layout;
 mod s_events;
 
 use std::io::{BufRead, Write};
@@ -33,12 +34,16 @@ fn main() {
             let mut cx = Ctx { out: &mut out, n: 0 };
             match args[2].as_str() {
                 "EV" => s_events::gen_ev(&mut r, thorough, &mut cx),
+                "DEC" => s_events::gen_dec(&mut r, thorough, &mut cx),
+                "AMB" => s_events::gen_amb(&mut r, thorough, &mut cx),
                 s => { eprintln!("unknown stream {}", s); std::process::exit(2); }
             }
         }
         "exec" => {
             let f: fn(&[u64]) -> L = match args[2].as_str() {
                 "EV" => s_events::exec_ev,
+                "DEC" => s_events::exec_dec,
+                "AMB" => s_events::exec_amb,
                 s => { eprintln!("unknown stream {}", s); std::process::exit(2); }
             };
             let stdin = std::io::stdin();
